@@ -394,7 +394,9 @@ func (in *Interp) evalStep(step *ast.Node, item val.Value, env *Env) (val.Value,
 		if v.K == val.Null {
 			return val.U, &Err{Kind: "unsupported-null-member"}
 		}
-		if v.K == val.Arr {
+		if v.K == val.Arr && item.K == val.Arr {
+			// selections from several items (an array that is a member's value is
+			// a plain value and may contain nulls)
 			for _, e := range v.A {
 				if e.K == val.Null {
 					return val.U, &Err{Kind: "unsupported-null-member"}
